@@ -213,6 +213,25 @@ def menu(w, mon, ts, tick):
                 client.send(b"from-handler", retry=RetryMode.NONE)
             w.handler_hooks[ev] = hook
         out.append(("handler calls client.send() inside the next %s" % ev, arm2))
+    for ev in ("connect", "handle_message", "disconnect"):
+        for also_shutdown in (False, True):
+            if also_shutdown and ev == "connect":
+                continue
+
+            def arm3(ev=ev, also_shutdown=also_shutdown):
+                prev = w.handler_hooks.get(ev)
+
+                def hook(w_, client, *a):
+                    w_.handler_hooks.pop(ev, None)
+                    if prev:
+                        prev(w_, client, *a)
+                    for c in list(w_.ctxt.connections.values()):
+                        if c is not client:
+                            c.disconnect()
+                    if also_shutdown:
+                        w_.ctxt.shutdown()
+                w.handler_hooks[ev] = hook
+            out.append(("handler disconnects the OTHER clients%s inside the next %s" % (" and calls ctxt.shutdown()" if also_shutdown else "", ev), arm3))
     out.append(("ctxt.shutdown() now", lambda: w.ctxt.shutdown()))
     out.append(("token generator repeats its last answer", lambda: setattr(ts, "collide", ts.collide + 1)))
     return out
